@@ -13,7 +13,8 @@ MCOddTokens  == { Tok("dollar", "$", "-", "-"),
 MCHeaderTokens == { Tok("header", "$header.User-Agent", "-", "User-Agent"),
                     Tok("header", "$header.referer", "-", "Referer"),
                     Tok("header", "$header.X-Missing", "-", "X-Missing"),
-                    Tok("header", "$header.x_under", "-", "X_under") }
+                    Tok("header", "$header.x_under", "-", "X_under"),
+                    Tok("header", "$header.X-Forwarded-For", "-", "X-Forwarded-For") }
 MCTokens == {FieldTok(f) : f \in KnownFields} \cup MCTextTokens \cup MCOddTokens \cup MCHeaderTokens
 MCDeepSmall == { FieldTok("$remote_host"), FieldTok("$response_time_us"), FieldTok("$upstream_port"),
                  Tok("text", " ", "sep", "-"), Tok("text", "x=", "id", "-"),
@@ -26,12 +27,15 @@ T(Y, M, D, h, m, s, ns) == [Y |-> Y, M |-> M, D |-> D, h |-> h, m |-> m, s |-> s
 A(form, h, p) == [form |-> form, h |-> h, p |-> p]
 U(scheme, host, path, query) == [present |-> TRUE, scheme |-> scheme, host |-> host, path |-> path, query |-> query]
 NoURL == [present |-> FALSE, scheme |-> "", host |-> "", path |-> "", query |-> ""]
-H(n, v) == [name |-> n, val |-> v]
+\* header map entries: key as filed, value list, nil or not
+H(n, v) == [name |-> n, vals |-> <<v>>, nilv |-> FALSE]
+HM(n, vs) == [name |-> n, vals |-> vs, nilv |-> FALSE]
+HNil(n) == [name |-> n, vals |-> <<>>, nilv |-> TRUE]
 Big(limbs) == limbs
 Ev(t, ds, dns, size, status, raddr, uaddr, method, uri, proto, host, rurl, uurl, hdr, svc) ==
     [req |-> TRUE, t |-> t, dur |-> [s |-> ds, ns |-> dns], size |-> size, status |-> status, raddr |-> raddr,
      uaddr |-> uaddr, method |-> method, uri |-> uri, proto |-> proto, host |-> host, rurl |-> rurl, uurl |-> uurl,
-     hdr |-> hdr, svc |-> svc]
+     hmap |-> TRUE, hdr |-> hdr, svc |-> svc]
 
 UA == H("User-Agent", "curl/8.0 (x; y)")
 \* sizes: 0, 7, 10^4, 2^31, 2^32, 10^12, 2^63-1
@@ -66,14 +70,23 @@ MCEvents == <<
   [Ev(T(2023, 1, 31, 0, 0, 0, 0), 0, 0, Z0, 200, A("hp", "1.2.3.4", "5"), A("hp", "b", "1"), "GET", "/", "HTTP/1.1", "h", NoURL, NoURL, <<>>, "s") EXCEPT !.req = FALSE]
 >>
 
-\* quick tier: the events that carry the address / padding / size boundaries
-MCEventsQuick == SubSeq(MCEvents, 1, 8)
+\* header maps as code can build them: a key with a nil list (the documented way to suppress a header
+\* in httputil.ReverseProxy), an empty list, several values (Get takes the first), a non-canonical
+\* key put into the map directly (never found by Get), and a request without a header map
+HdrEvent1 == Ev(T(2023, 12, 24, 18, 0, 0, 0), 0, 5, Z7, 200, A("hp", "1.2.3.4", "5"), A("hp", "b", "1"), "GET", "/", "HTTP/1.1", "h",
+                U("http", "h", "/", ""), U("http", "b:1", "/", ""),
+                <<HNil("X-Forwarded-For"), HM("Referer", <<>>), HM("User-Agent", <<"first", "second">>), H("user-agent", "lower-case key"), H("X_under", "u")>>, "s")
+HdrEvent2 == [Ev(T(2023, 12, 25, 6, 0, 0, 0), 0, 6, Z7, 200, A("hp", "1.2.3.4", "5"), A("hp", "b", "1"), "GET", "/", "HTTP/1.1", "h",
+                 U("http", "h", "/", ""), U("http", "b:1", "/", ""), <<>>, "s") EXCEPT !.hmap = FALSE]
+MCEventsAll == MCEvents \o <<HdrEvent1, HdrEvent2>>
+\* quick tier: the events that carry the address / padding / size / header-map boundaries
+MCEventsQuick == SubSeq(MCEvents, 1, 8) \o <<HdrEvent1, HdrEvent2>>
 
 AddrJson(a) == [form |-> a.form, h |-> a.h, p |-> a.p]
 EvJson(e) == [req |-> e.req, t |-> <<e.t.Y, e.t.M, e.t.D, e.t.h, e.t.m, e.t.s, e.t.ns>>, durs |-> e.dur.s, durns |-> e.dur.ns,
               size |-> e.size, status |-> e.status, raddr |-> AddrStr(e.raddr), uaddr |-> AddrStr(e.uaddr),
               method |-> e.method, uri |-> e.uri, proto |-> e.proto, host |-> e.host,
-              rurl |-> e.rurl, uurl |-> e.uurl, hdr |-> e.hdr, svc |-> e.svc]
+              rurl |-> e.rurl, uurl |-> e.uurl, hmap |-> e.hmap, hdr |-> e.hdr, svc |-> e.svc]
 FmtJson(f) == [i \in DOMAIN f |-> [k |-> f[i].k, v |-> f[i].v]]
 
 GenParse == /\ Parse
